@@ -446,7 +446,7 @@ func parseContract(key string, clauses []string, where string) (*Contract, error
 				for _, t := range tags {
 					c.Props[t] = true
 				}
-			case "ghost":
+			case "ghost", "ghostafter":
 				i := findDefEq(f[2])
 				if i < 0 {
 					return nil, fmt.Errorf("%s: bad ghost update %q", w, l)
@@ -561,6 +561,9 @@ func (sp *Specs) LoadContractComments(path, pkgPath string) (int, error) {
 			return nil
 		}
 		key := pkgPath + "." + curKey
+		if strings.HasPrefix(curKey, "dynamic:") {
+			key = "dynamic:" + pkgPath + "." + strings.TrimPrefix(curKey, "dynamic:")
+		}
 		c, err := parseContract(key, cur, path)
 		if err != nil {
 			return err
